@@ -31,6 +31,14 @@ and keeps discarding; the connection is closed when that one fires (at once if `
 then `now` is already past it).  A read error that persists (`peerCloses`: EOF / reset) ends
 `io.Copy` on its first `Read`, i.e. the conn is closed immediately.
 -/
+namespace O4.RF
+
+/-- bulk insertion of values known to be new: what `fill` does in one step -/
+def Filter.fillFresh (f : Filter) (now : Int) (ds : List Nat) : Filter :=
+  { f with fifo := f.fifo ++ ds.map (fun d => ⟨d, now⟩) }
+
+end O4.RF
+
 namespace O4.Obfs4Server
 open O4.Consts.Obfs4 O4.Handshake
 
